@@ -324,4 +324,77 @@ theorem mux_unsigned_never_ok {rid : Nat} {v vf : Verifier} {pre post : List (By
     · simp at hr
     · simp at hr
 
+/-! ### the UDP client -/
+
+/-- **`udp_ok_implies_verified`**: whatever datagrams arrive for a signed request (at most three
+are looked at), `UdpRequest::send` returns `Ok` only for a datagram that the request's
+`TSigVerifier` authenticated — as the first message of the chain, against the request MAC.  No
+header bit of the reply (TC, AA, RA, rcode, …) bypasses the verifier. -/
+theorem udp_ok_implies_verified {v v' : Verifier} {rid : Nat} :
+    ∀ (k : Nat) (ds : List (Bytes × Bool × Bool × Bool)),
+      udpRecv v rid k ds = .ok (some v') →
+      ∃ buf rdok pok qok, (buf, rdok, pok, qok) ∈ ds ∧ StepAuthenticated v buf rdok v' := by
+  intro k
+  induction k with
+  | zero => intro ds h; simp [udpRecv] at h
+  | succ k ih =>
+    intro ds h
+    cases ds with
+    | nil => simp [udpRecv] at h
+    | cons d rest =>
+      obtain ⟨buf, rdok, pok, qok⟩ := d
+      rw [udpRecv] at h
+      split at h
+      · simp at h
+      · split at h
+        · obtain ⟨b, r, p, q, hm, hs⟩ := ih rest h
+          exact ⟨b, r, p, q, List.mem_cons_of_mem _ hm, hs⟩
+        · split at h
+          · obtain ⟨b, r, p, q, hm, hs⟩ := ih rest h
+            exact ⟨b, r, p, q, List.mem_cons_of_mem _ hm, hs⟩
+          · split at h
+            · rename_i v'' hv
+              simp only [Outcome.ok.injEq, Option.some.injEq] at h
+              subst h
+              exact ⟨buf, rdok, pok, qok, List.mem_cons_self, verify_ok_authenticated hv⟩
+            · simp at h
+            · simp at h
+
+/-- an unsigned datagram (ARCOUNT 0) — e.g. a forgery with TC set — is never the one returned -/
+theorem udp_unsigned_not_returned {v v' : Verifier} {rid k : Nat}
+    {ds : List (Bytes × Bool × Bool × Bool)} (h : udpRecv v rid k ds = .ok (some v')) :
+    ∃ buf rdok pok qok, (buf, rdok, pok, qok) ∈ ds ∧
+      ∀ hd, readHdr buf = some hd → hd.ar ≠ 0 := by
+  obtain ⟨buf, rdok, pok, qok, hm, hs⟩ := udp_ok_implies_verified k ds h
+  refine ⟨buf, rdok, pok, qok, hm, ?_⟩
+  intro hd hh har
+  obtain ⟨tbs, r, hsb, _⟩ := hs.ex
+  unfold signedBitmessageToBuf at hsb
+  rw [hh] at hsb
+  simp [har] at hsb
+
+theorem udpRecv_no_panic (v : Verifier) (rid : Nat) :
+    ∀ (k : Nat) (ds : List (Bytes × Bool × Bool × Bool)) (s : String),
+      udpRecv v rid k ds ≠ .panic s := by
+  intro k
+  induction k with
+  | zero => intro ds s; simp [udpRecv]
+  | succ k ih =>
+    intro ds s
+    cases ds with
+    | nil => simp [udpRecv]
+    | cons d rest =>
+      obtain ⟨buf, rdok, pok, qok⟩ := d
+      rw [udpRecv]
+      split
+      · simp
+      · split
+        · exact ih _ _
+        · split
+          · exact ih _ _
+          · split
+            · simp
+            · simp
+            · rename_i m hm; exact absurd hm (verifier_no_panic _ _ _ _ _)
+
 end HickoryVerif.C13
